@@ -8,7 +8,7 @@
    arbitrary hash function [kec], either registry flavour [cfg], every configured address
    [reg] and every account [addr]. *)
 From Coq Require Import String List NArith ZArith Bool.
-From MevVerif Require Import lib.Bytes lib.Abi gen.Generated model.Registry check.Check_C11 proofs.Abi_proofs proofs.Registry_proofs.
+From MevVerif Require Import lib.Bytes lib.Abi gen.Generated model.Registry check.Check_C11 proofs.Abi_proofs proofs.Registry_proofs model.Config proofs.Config_proofs.
 Import ListNotations.
 Open Scope N_scope.
 
@@ -478,3 +478,22 @@ Theorem C11_unreadable_registry_refuses_provider :
   Handshake.res (Handshake.handle c o wfail (f1 :: rest)) = Handshake.Refuse Handshake.RStake.
 Proof. exact Compose_registry.unreadable_registry_refuses_provider. Qed.
 Print Assumptions C11_unreadable_registry_refuses_provider.
+
+(* "... a call to the CONFIGURED registry contract": the configured addresses are the values of the flags
+   provider-registry-contract and bidder-registry-contract, each carried in its own field of node.Options by
+   cmd/main.go (tables regenerated from the source on every run) and turned into the registry objects' addresses by
+   node.NewNode (regenerated source texts); no other flag reaches those fields. *)
+Theorem C11_configured_registries_are_the_flags : forall env, exists o,
+  Config.launch_options env = Some o
+  /\ Config.o_preconf_contract o = env (bos "preconf-contract")
+  /\ Config.o_provider_registry_contract o = env (bos "provider-registry-contract")
+  /\ Config.o_bidder_registry_contract o = env (bos "bidder-registry-contract")
+  /\ Config.node_contract_wiring_ok = true.
+Proof. exact Config_proofs.configured_contracts_from_flags. Qed.
+Print Assumptions C11_configured_registries_are_the_flags.
+
+Theorem C11_config_flags_pairwise_distinct :
+  Config_proofs.nodupb [bos "secret"; bos "peer-type"; bos "preconf-contract"; bos "provider-registry-contract";
+          bos "bidder-registry-contract"; bos "settlement-rpc-endpoint"] = true.
+Proof. exact Config_proofs.config_flags_distinct. Qed.
+Print Assumptions C11_config_flags_pairwise_distinct.
